@@ -194,6 +194,8 @@ def run():
         nuc = rng.random() < 0.5
         a = gen.random_abstract(rng, N=rng.randint(1, 7), K=rng.randint(1, 6), max_edges=12, nsites=4, nmuts=4,
                                 nalleles=4 if nuc else len(gen.ALLELES))
+        if i % 3 == 2:       # node ids in no particular order (ids carry no meaning: parents with smaller ids than children, samples anywhere)
+            a = gen.permute_nodes(a, random.Random(SEED * 1000003 + i))
         cases.append(drive(a, rng, nuc_only=nuc))
     # binding self-test
     corrupted = []
